@@ -187,6 +187,22 @@ def run(c) -> CaseResult:
             res.fail("C16.value.no_grad", f"[{ftag}] under torch.no_grad() unit_scale(module) returned {y_ng.item():.7g}, the hand conversion gives {yr_ng.item():.7g}\n{m._verif_source}")
     except Exception as e:  # noqa: BLE001
         res.fail(exc_bucket("C16.raises.no_grad", e).replace("outside-library", "via-dynamo")[:300], f"{type(e).__name__}: {str(e)[:300]}\n{m._verif_source}")
+    # ---- (2'') a second call of the same transformed module with another batch size (TorchDynamo recompiles: the transform runs again)
+    if not any(s_["op"] == "shape" and s_["kind"] in ("flat", "view") for s_ in prog["stmts"]):
+        prog_b = dict(prog, B=prog["B"] + 1)
+        inputs_b = dsl.make_inputs(prog_b, c["seed"] + 3)
+        try:
+            fb = prep(inputs_b)
+            yb = call(um, fb)
+            gb = grads(yb, [fb[k] for k in FLOAT_INPUTS if k in fb and fb[k].requires_grad] + list(P.values()))
+            frb = prep(inputs_b)
+            yrb = dsl.evaluate(prog_b, dsl.named_tensors(um), frb, dsl.Unit())
+            grb = grads(yrb, [frb[k] for k in FLOAT_INPUTS if k in frb and frb[k].requires_grad] + list(P.values()))
+            if not close(yb.detach(), yrb.detach()) or not all(close(a, b) for a, b in zip(gb, grb)):
+                res.fail("C16.second-call.other-batch-size", f"[{ftag}] a second call with batch size {prog_b['B']} differs from the hand conversion (first call with {prog['B']} agreed)\n{m._verif_source}")
+            res.labels.append("second-call-other-batch-size")
+        except Exception as e:  # noqa: BLE001
+            res.fail(exc_bucket("C16.raises.second-call", e).replace("outside-library", "via-dynamo")[:300], f"{type(e).__name__}: {str(e)[:300]}\n{m._verif_source}")
     # ---- (3) the original is untouched; (4) weights of Linear/Embedding modules re-initialised, biases zero
     for k, v in m.state_dict().items():
         if not torch.equal(v, sd0[k]):
